@@ -1173,17 +1173,81 @@ def _inline_new_helpers(trees, known):
     return trees
 
 
+class _StarTargets(ast.NodeTransformer):
+    """Normal form (behaviour-preserving for sequences): `for a, *rest in rows: B` -> `for _row in rows: a = _row[0]; rest = _row[1:]; B`, and `a, *rest = v` likewise."""
+
+    def __init__(self):
+        self.n = 0
+
+    def _split(self, target, src_name, at):
+        out = []
+        elts = target.elts
+        k = next(i for i, e in enumerate(elts) if isinstance(e, ast.Starred))
+        if k != len(elts) - 1 or not all(isinstance(e, ast.Name) for e in elts[:k]) or not isinstance(elts[k].value, ast.Name):
+            return None
+        for i, e in enumerate(elts[:k]):
+            out.append(ast.Assign(targets=[ast.Name(e.id, ast.Store())], value=ast.Subscript(value=ast.Name(src_name, ast.Load()), slice=ast.Constant(i), ctx=ast.Load())))
+        out.append(ast.Assign(targets=[ast.Name(elts[k].value.id, ast.Store())],
+                              value=ast.Subscript(value=ast.Name(src_name, ast.Load()), slice=ast.Slice(lower=ast.Constant(k), upper=None, step=None), ctx=ast.Load())))
+        for o in out:
+            ast.copy_location(o, at)
+            ast.fix_missing_locations(o)
+        return out
+
+    def visit_For(self, node):
+        self.generic_visit(node)
+        t = node.target
+        if isinstance(t, ast.Tuple) and sum(isinstance(e, ast.Starred) for e in t.elts) == 1:
+            self.n += 1
+            name = f'_row{self.n}'
+            pre = self._split(t, name, node)
+            if pre is not None:
+                rest = next(e for e in t.elts if isinstance(e, ast.Starred)).value.id
+                k = len(t.elts) - 1
+                rebound = any(isinstance(x, ast.Name) and x.id == rest and isinstance(x.ctx, ast.Store) for b in node.body for x in ast.walk(b))
+                if not rebound:
+                    # `f(*rest)` inside the loop is `f(*_row[k:])`
+                    for b in node.body:
+                        for x in ast.walk(b):
+                            if isinstance(x, ast.Starred) and isinstance(x.value, ast.Name) and x.value.id == rest and isinstance(x.ctx, ast.Load):
+                                x.value = ast.copy_location(ast.Subscript(value=ast.Name(name, ast.Load()), slice=ast.Slice(lower=ast.Constant(k), upper=None, step=None), ctx=ast.Load()), x)
+                                ast.fix_missing_locations(x)
+                node.target = ast.copy_location(ast.Name(name, ast.Store()), t)
+                node.body = pre + node.body
+        return node
+
+
 class _StarSliceArgs(ast.NodeTransformer):
     """Normal form (behaviour-preserving): `NT(*row[k:])` where NT is a namedtuple of the package with n fields is read as `NT(row[k], ..., row[k+n-1])`."""
 
     def __init__(self, arity):
         self.arity = arity
+        self.slices = {}
+
+    def visit_FunctionDef(self, node):
+        # locals bound exactly once, to a tail slice `X[k:]` of a name
+        saved = self.slices
+        cnt, val = {}, {}
+        for n in ast.walk(node):
+            if isinstance(n, ast.Name) and isinstance(n.ctx, ast.Store):
+                cnt[n.id] = cnt.get(n.id, 0) + 1
+            if isinstance(n, ast.Assign) and len(n.targets) == 1 and isinstance(n.targets[0], ast.Name) and isinstance(n.value, ast.Subscript) and isinstance(n.value.value, ast.Name) \
+                    and isinstance(n.value.slice, ast.Slice) and n.value.slice.upper is None and n.value.slice.step is None:
+                val[n.targets[0].id] = n.value
+        self.slices = {k: v for k, v in val.items() if cnt.get(k) == 1}
+        self.generic_visit(node)
+        self.slices = saved
+        return node
+
+    visit_AsyncFunctionDef = visit_FunctionDef
 
     def visit_Call(self, node):
         self.generic_visit(node)
         name = node.func.id if isinstance(node.func, ast.Name) else (node.func.attr if isinstance(node.func, ast.Attribute) else None)
         if name in self.arity and len(node.args) == 1 and not node.keywords and isinstance(node.args[0], ast.Starred):
             v = node.args[0].value
+            if isinstance(v, ast.Name) and v.id in getattr(self, 'slices', {}):
+                v = self.slices[v.id]
             if isinstance(v, ast.Subscript) and isinstance(v.value, ast.Name) and isinstance(v.slice, ast.Slice) and v.slice.upper is None and v.slice.step is None \
                     and (v.slice.lower is None or (isinstance(v.slice.lower, ast.Constant) and isinstance(v.slice.lower.value, int) and v.slice.lower.value >= 0)):
                 k = v.slice.lower.value if v.slice.lower is not None else 0
@@ -1270,6 +1334,7 @@ class Program:
         sigs = _signatures([t for _, _, _, t in parsed])
         arity = _namedtuple_arities([t for _, _, _, t in parsed])
         for fname, path, src, tree in parsed:
+            tree = _StarTargets().visit(tree)
             tree = _StarSliceArgs(arity).visit(tree)
             tree = _CallConvention(sigs, conv).visit(tree)
             tree = _DropLocalAnnotations().visit(tree)
